@@ -82,7 +82,174 @@ let str_runs l = String.concat ";" (List.map (fun ((nm, s), e) -> string_of_z nm
 let str_structs l = String.concat ";" (List.map (fun ((nm, s), sub) -> string_of_z nm ^ ":" ^ string_of_z s ^ ":" ^ string_of_z (axis_len (ABm sub))) l)
 let header_of axes = to_header axis_eqb axis_enc axes
 let str_dims mat = String.concat ";" (List.map (fun (ds, _) -> string_of_zlist ds) mat)
+
+(* ---------------------------------------------------------------- XML layer (ModelXml.v)
+   S-expressions: atoms are integers, N (None), s<cp>.<cp>... (a string as code points; "s" = empty)
+   header  (H ver meta (mim...))            meta   N | (M k v k v ...)
+   mim     (I (dims) type (n e start step unit) (child...))
+   child   (NM name meta table) | (SF bs n) | (PC name vox ((bs (idx...))...)) | (VL (dims) tr) |
+           (BM off cnt type bs nvert vox vtx)
+   table   N | (T (key (r g b a) text)...)    vox  N | (X i j k ...)   vtx  N | (V i ...)
+   tr      N | (exp N) | (exp (m...))
+   events  ((S tag attrs) (C str) (E tag) ...)   attrs  N | (ACifti v) | (AMim (dims) type (n e st sp u)) |
+           (ALabel key (rgba)) | (ASurface bs n) | (AParcel name) | (AVertices bs) | (AVolume (dims)) |
+           (ATransform e) | (ABm off cnt type bs nvert)
+   ops: xwrite <header> | xparse <events> | xnorm <header> | xrt <header>  (parse (write h) vs norm h) *)
+type sx = A of string | L of sx list
+let sx_tokens (s : string) : string list =
+  let b = Buffer.create 16 and out = ref [] in
+  let flush () = if Buffer.length b > 0 then (out := Buffer.contents b :: !out; Buffer.clear b) in
+  String.iter (fun c -> match c with
+    | '(' | ')' -> flush (); out := String.make 1 c :: !out
+    | ' ' | '\n' | '\t' -> flush ()
+    | c -> Buffer.add_char b c) s;
+  flush (); List.rev !out
+let rec sx_parse toks = match toks with
+  | "(" :: r -> let (l, r') = sx_list r in (L l, r')
+  | ")" :: _ -> failwith "sexp: unexpected )"
+  | a :: r -> (A a, r)
+  | [] -> failwith "sexp: eof"
+and sx_list toks = match toks with
+  | ")" :: r -> ([], r)
+  | [] -> failwith "sexp: missing )"
+  | _ -> let (x, r) = sx_parse toks in let (l, r') = sx_list r in (x :: l, r')
+let sx_of_string s = fst (sx_parse (sx_tokens s))
+let rec sx_str = function A a -> a | L l -> "(" ^ String.concat " " (List.map sx_str l) ^ ")"
+let zs = function A a -> z_of_string a | _ -> failwith "int expected"
+let zl = function L l -> List.map zs l | _ -> failwith "int list expected"
+let opt f = function A "N" -> None | x -> Some (f x)
+let str_of = function
+  | A a when String.length a >= 1 && a.[0] = 's' ->
+    let r = String.sub a 1 (String.length a - 1) in
+    if r = "" then [] else List.map z_of_string (String.split_on_char '.' r)
+  | _ -> failwith "string expected"
+let sx_of_str (t : z list) = A ("s" ^ String.concat "." (List.map string_of_z t))
+let sx_z z = A (string_of_z z)
+let sx_opt f = function None -> A "N" | Some x -> f x
+let sx_zl l = L (List.map sx_z l)
+let rec pairs_str = function a :: b :: r -> (str_of a, str_of b) :: pairs_str r | [] -> [] | _ -> failwith "meta"
+let meta_of = function L (A "M" :: r) -> pairs_str r | _ -> failwith "meta expected"
+let sx_meta m = L (A "M" :: List.concat_map (fun (k, v) -> [sx_of_str k; sx_of_str v]) m)
+let label_of = function L [k; c; t] -> { xl_key = zs k; xl_rgba = zl c; xl_text = str_of t } | _ -> failwith "label"
+let sx_label l = L [sx_z l.xl_key; sx_zl l.xl_rgba; sx_of_str l.xl_text]
+let table_of = function L (A "T" :: r) -> List.map label_of r | _ -> failwith "table"
+let sx_table t = L (A "T" :: List.map sx_label t)
+let vox_of = function L (A "X" :: r) -> triples (List.map zs r) | _ -> failwith "vox"
+let sx_vox v = L (A "X" :: List.concat_map (fun ((a, b), c) -> [sx_z a; sx_z b; sx_z c]) v)
+let vtx_of = function L (A "V" :: r) -> List.map zs r | _ -> failwith "vtx"
+let sx_vtx v = L (A "V" :: List.map sx_z v)
+let series_of = function
+  | L [a; b; c; d; e] -> { xs_n = opt zs a; xs_exp = opt zs b; xs_start = opt zs c; xs_step = opt zs d; xs_unit = opt zs e }
+  | _ -> failwith "series"
+let sx_series s = L [sx_opt sx_z s.xs_n; sx_opt sx_z s.xs_exp; sx_opt sx_z s.xs_start; sx_opt sx_z s.xs_step; sx_opt sx_z s.xs_unit]
+let child_of = function
+  | L [A "NM"; n; m; t] -> CNamed { nm_name = opt str_of n; nm_meta = opt meta_of m; nm_table = opt table_of t }
+  | L [A "SF"; bs; n] -> CSurf (zs bs, zs n)
+  | L [A "PC"; n; v; L vs] ->
+    CParcel { pc_name = zs n; pc_vox = opt vox_of v;
+              pc_verts = List.map (function L [bs; idx] -> { vs_bs = zs bs; vs_idx = zl idx } | _ -> failwith "verts") vs }
+  | L [A "VL"; d; tr] ->
+    CVol { vl_dims = zl d; vl_transform = opt (function L [e; m] -> (zs e, opt zl m) | _ -> failwith "transform") tr }
+  | L [A "BM"; a; b; c; d; e; v; t] ->
+    CBm { bx_off = opt zs a; bx_cnt = opt zs b; bx_type = opt zs c; bx_bs = opt zs d; bx_nvert = opt zs e;
+          bx_vox = opt vox_of v; bx_vtx = opt vtx_of t }
+  | x -> failwith ("child: " ^ sx_str x)
+let sx_child = function
+  | CNamed m -> L [A "NM"; sx_opt sx_of_str m.nm_name; sx_opt sx_meta m.nm_meta; sx_opt sx_table m.nm_table]
+  | CSurf (bs, n) -> L [A "SF"; sx_z bs; sx_z n]
+  | CParcel p -> L [A "PC"; sx_z p.pc_name; sx_opt sx_vox p.pc_vox;
+                    L (List.map (fun v -> L [sx_z v.vs_bs; sx_zl v.vs_idx]) p.pc_verts)]
+  | CVol v -> L [A "VL"; sx_zl v.vl_dims; sx_opt (fun (e, m) -> L [sx_z e; sx_opt sx_zl m]) v.vl_transform]
+  | CBm b -> L [A "BM"; sx_opt sx_z b.bx_off; sx_opt sx_z b.bx_cnt; sx_opt sx_z b.bx_type; sx_opt sx_z b.bx_bs;
+                sx_opt sx_z b.bx_nvert; sx_opt sx_vox b.bx_vox; sx_opt sx_vtx b.bx_vtx]
+let mim_of = function
+  | L [A "I"; d; t; s; L ch] -> { xm_dims = zl d; xm_type = zs t; xm_series = series_of s; xm_children = List.map child_of ch }
+  | _ -> failwith "mim"
+let sx_mim m = L [A "I"; sx_zl m.xm_dims; sx_z m.xm_type; sx_series m.xm_series; L (List.map sx_child m.xm_children)]
+let xheader_of = function
+  | L [A "H"; v; m; L mims] -> { xh_version = zs v; xh_meta = opt meta_of m; xh_mims = List.map mim_of mims }
+  | _ -> failwith "header"
+let sx_header h = L [A "H"; sx_z h.xh_version; sx_opt sx_meta h.xh_meta; L (List.map sx_mim h.xh_mims)]
+let tags = [ ("CIFTI", TCifti); ("Matrix", TMatrix); ("MetaData", TMetaData); ("MD", TMD); ("Name", TName);
+  ("Value", TValue); ("MatrixIndicesMap", TMim); ("NamedMap", TNamedMap); ("LabelTable", TLabelTable); ("Label", TLabel);
+  ("MapName", TMapName); ("Surface", TSurface); ("Parcel", TParcel); ("Vertices", TVertices); ("VoxelIndicesIJK", TVoxelIJK);
+  ("Volume", TVolume); ("TransformationMatrixVoxelIndicesIJKtoXYZ", TTransform); ("BrainModel", TBrainModel);
+  ("VertexIndices", TVertexIndices); ("?", TOther) ]
+let tag_of = function A a -> (try List.assoc a tags with Not_found -> TOther) | _ -> failwith "tag"
+let sx_tag t = A (fst (List.find (fun (_, x) -> x = t) tags))
+let attrs_of = function
+  | A "N" -> ANone
+  | L [A "ACifti"; v] -> ACifti (zs v)
+  | L [A "AMim"; d; t; s] -> AMim (zl d, zs t, series_of s)
+  | L [A "ALabel"; k; c] -> ALabel (zs k, zl c)
+  | L [A "ASurface"; b; n] -> ASurface (zs b, zs n)
+  | L [A "AParcel"; n] -> AParcel (zs n)
+  | L [A "AVertices"; b] -> AVertices (zs b)
+  | L [A "AVolume"; d] -> AVolume (zl d)
+  | L [A "ATransform"; e] -> ATransform (zs e)
+  | L [A "ABm"; a; b; c; d; e] -> ABrainModel (opt zs a, opt zs b, opt zs c, opt zs d, opt zs e)
+  | x -> failwith ("attrs: " ^ sx_str x)
+let sx_attrs = function
+  | ANone -> A "N"
+  | ACifti v -> L [A "ACifti"; sx_z v]
+  | AMim (d, t, s) -> L [A "AMim"; sx_zl d; sx_z t; sx_series s]
+  | ALabel (k, c) -> L [A "ALabel"; sx_z k; sx_zl c]
+  | ASurface (b, n) -> L [A "ASurface"; sx_z b; sx_z n]
+  | AParcel n -> L [A "AParcel"; sx_z n]
+  | AVertices b -> L [A "AVertices"; sx_z b]
+  | AVolume d -> L [A "AVolume"; sx_zl d]
+  | ATransform e -> L [A "ATransform"; sx_z e]
+  | ABrainModel (a, b, c, d, e) -> L [A "ABm"; sx_opt sx_z a; sx_opt sx_z b; sx_opt sx_z c; sx_opt sx_z d; sx_opt sx_z e]
+let event_of = function
+  | L [A "S"; t; a] -> Start (tag_of t, attrs_of a)
+  | L [A "C"; c] -> Chars (str_of c)
+  | L [A "E"; t] -> End (tag_of t)
+  | _ -> failwith "event"
+let sx_event = function
+  | Start (t, a) -> L [A "S"; sx_tag t; sx_attrs a]
+  | Chars c -> L [A "C"; sx_of_str c]
+  | End t -> L [A "E"; sx_tag t]
+let events_of = function L l -> List.map event_of l | _ -> failwith "events"
+(* the oracles, as the harness's conventions make them concrete: structure ids are positive
+   iff the name is in CIFTI_BRAIN_STRUCTURES; affine entries are integers * 4 printed by
+   '{:.10f}'; integer texts are decimal *)
+let cps (s : string) : z list = List.init (String.length s) (fun i -> z_of_int (Char.code s.[i]))
+let string_of_cps (l : z list) : string = String.concat "" (List.map (fun c -> String.make 1 (Char.chr (int_of_z c land 255))) l)
+let bs_valid (b : z) : bool = int_of_z b > 0
+let show_ints l = cps (String.concat " " (List.map string_of_z l))
+let show_vox l = cps (String.concat "\n" (List.map (fun ((a, b), c) -> String.concat " " (List.map string_of_z [a; b; c])) l))
+let fmt10 (x : z) : string =
+  let v = BigZ.to_int (big_of_z x) in
+  let a = abs v in
+  (if v < 0 then "-" else "") ^ string_of_int (a / 4) ^ "." ^ (match a mod 4 with 0 -> "00" | 1 -> "25" | 2 -> "50" | _ -> "75") ^ "00000000"
+let rec take4 l = match l with a :: b :: c :: d :: r -> [a; b; c; d] :: take4 r | [] -> [] | _ -> [l]
+let show_matrix l = cps (String.concat "\n" (List.map (fun row -> String.concat " " (List.map fmt10 row)) (take4 l)))
+let split_ws (s : string) : string list =
+  List.filter (fun w -> w <> "") (String.split_on_char ' ' (String.map (fun c -> if c = '\n' || c = '\t' || c = '\r' then ' ' else c) s))
+let loadtxt_ints (t : z list) : z list option =
+  try Some (List.map z_of_string (split_ws (string_of_cps t))) with _ -> None
+let loadtxt_floats (t : z list) : z list option =
+  try Some (List.map (fun w -> let f = float_of_string w *. 4.0 in
+                       if Float.of_int (Float.to_int f) <> f then failwith "not a multiple of 1/4" else z_of_int (Float.to_int f))
+                     (split_ws (string_of_cps t))) with _ -> None
+let str_xerr = function XHeader -> "header" | XState -> "state" | XData -> "data" | XVersion -> "version" | XKey -> "key" | XWriter -> "writer"
+let xres f = function XOk a -> "ok " ^ f a | XErr e -> "err " ^ str_xerr e
+let x_write h = write show_ints show_vox show_matrix h
+let x_parse evs = parse bs_valid loadtxt_ints loadtxt_floats evs
+let handle_xml op args =
+  let arg = String.concat " " args in
+  match op with
+  | "xwrite" -> xres (fun evs -> sx_str (L (List.map sx_event evs))) (x_write (xheader_of (sx_of_string arg)))
+  | "xparse" -> xres (fun h -> sx_str (sx_header h)) (x_parse (events_of (sx_of_string arg)))
+  | "xnorm" -> "ok " ^ sx_str (sx_header (norm (xheader_of (sx_of_string arg))))
+  | "xrt" ->
+    let h = xheader_of (sx_of_string arg) in
+    (match x_write h with
+     | XErr e -> "err " ^ str_xerr e
+     | XOk evs -> xres (fun h' -> sx_str (sx_header h') ^ " norm=" ^ string_of_bool (h' = norm h)) (x_parse evs))
+  | _ -> "err driver:badop"
 let handle op args = match op, args with
+  | ("xwrite" | "xparse" | "xnorm" | "xrt"), _ -> handle_xml op args
   | "resolve", [n; ix] -> res string_of_zlist (resolve (z_of_string n) (parse_idx ix))
   | "ser_time", a -> "ok " ^ string_of_zlist (ser_time (parse_ser a))
   | "ser_get", [a; b; c; d; ix] ->
